@@ -118,16 +118,32 @@ def mk_field(fd):
     from cfinterface.components.datetimefield import DatetimeField
 
     k = fd["k"]
+    # a fifth of the field descriptions (chosen by a hash of the description, so that a
+    # replay builds the same object) are instances of a user subclass two levels below the
+    # framework class that overrides nothing: inherited behaviour must be the same behaviour
+    sub = (fd["size"] * 7 + fd["start"] * 3 + len(k)) % 5 == 0
     if k == "lit":
-        return LiteralField(fd["size"], fd["start"])
+        return _cls(LiteralField, sub)(fd["size"], fd["start"])
     if k == "int":
-        return IntegerField(fd["size"], fd["start"])
+        return _cls(IntegerField, sub)(fd["size"], fd["start"])
     if k == "flt":
-        return FloatField(fd["size"], fd["start"], fd["dec"], dec_str(fd["fmt"]), dec_str(fd["sep"]))
+        return _cls(FloatField, sub)(fd["size"], fd["start"], fd["dec"], dec_str(fd["fmt"]), dec_str(fd["sep"]))
     if k == "date":
         fmts = [dec_str(f) for f in fd["fmts"]]
-        return DatetimeField(fd["size"], fd["start"], fmts[0] if len(fmts) == 1 else fmts)
+        return _cls(DatetimeField, sub)(fd["size"], fd["start"], fmts[0] if len(fmts) == 1 else fmts)
     raise ValueError(k)
+
+
+_SUBS = {}
+
+
+def _cls(base, sub):
+    if not sub:
+        return base
+    if base not in _SUBS:
+        mid = type("User" + base.__name__, (base,), {})
+        _SUBS[base] = type("UserUser" + base.__name__, (mid,), {})
+    return _SUBS[base]
 
 
 def py_reference_text(fd, span: str):
